@@ -56,6 +56,22 @@ fn cases(thorough: bool) -> Vec<Case> {
     v.push(case("empty-range", "Qs8d2h", &["empty", "empty"], true, 0, 1176));
     v.push(case("empty-range", "Qs8d2h", &["text:"], true, 0, 1176));
     v.push(case("empty-range", "Qs8d2h", &["text:XYZ"], true, 0, 1176));
+    // the same through scope(), as every worker of the multi-thread example does
+    for sc in ["scope:0,1,48,49", "scope:0,1,10,20", "scope:10,20,48,49", "scope:47,48,48,49", "scope:5,6,5,6"] {
+        v.push(case("empty-range", "Qs8d2h", &[sc, "empty"], true, 0, 1176));
+        v.push(case("empty-range", "Qs8d2h", &[sc, "list:AhKh", "empty"], true, 0, 1176));
+        v.push(case("empty-range", "Qs8d2h", &[sc, "empty", "text:AA"], true, 0, 1176));
+        v.push(case("scoped", "As8d2h", &[sc, "list:AsKs", "firstnot:As:16"], true, 1176 * 16, 1176 * 16));
+        v.push(case("scoped", "Qs8d2h", &[sc, "first:257"], false, 0, 1176 * 257));
+        v.push(case("scoped", "Qs8d2h", &[sc, "text:AKs", "text:AKs"], false, 0, 1176 * 16));
+        v.push(case("scoped", "Kh8d3c", &[sc, "list:2c2d,AsAh", "list:AsKs,2d2h"], false, 0, 1176 * 4));
+        v.push(case("scoped", "Qs8d2h", &[sc], false, 0, 1176));
+    }
+    // the last deals of the line are blocked (by the board, by the other player)
+    v.push(case("blocked-tail", "Kh8d3c", &["list:2c2d"], false, 1, 1176));
+    v.push(case("blocked-tail", "Kh8d3c", &["list:AsAh,2c2d"], false, 1, 1176 * 2));
+    v.push(case("blocked-tail", "Kh8d3c", &["text:AKs", "text:AKs"], false, 1, 1176 * 16));
+    v.push(case("blocked-tail", "2h2d2c", &["list:2s3c"], false, 1, 1176));
     // no players
     v.push(case("no-players", "Qs8d2h", &[], false, 0, 1176));
     // realistic inputs
